@@ -34,9 +34,12 @@ def stepC19 (_ : Unit) (toks : List String) : Unit × String :=
         match Hive.Gen.SafeMathCorpus.corpusGeneric.lookup name with
         | some f => showRes (f T x y)
         | none =>
-          match Hive.Gen.SafeMathCorpus.corpusU64.lookup name with
-          | some g => showRes (g x y)
-          | none => "bad-op"
+          match Hive.Gen.SafeMathCorpus.corpusNamed.lookup name with
+          | some h => showRes (h (k.startsWith "d") T x y)
+          | none =>
+            match Hive.Gen.SafeMathCorpus.corpusU64.lookup name with
+            | some g => showRes (g x y)
+            | none => "bad-op"
       | _, _, _ => "bad-op"
     | ["search", fn, k] =>
       match parseTyC19 k with
